@@ -69,8 +69,13 @@ CARRIERS = {
                               {"k": "cpp_class", "doc": 1},
                               {"k": "cpp_member", "doc": 1, "types": ["args"], "params": [], "impl": "macro"}],
     "class_two_inner": lambda: [{"k": "cpp_class", "doc": 1}, {"k": "cpp_class", "doc": 1}, {"k": "close"},
-                                {"k": "cpp_class", "doc": 0}, {"k": "close"}, {"k": "cpp_class", "doc": 1},
-                                {"k": "cpp_attr", "doc": 1}],
+                                {"k": "cpp_class", "doc": 0}, {"k": "close"},
+                                # members of the outer class declared after its inner classes were closed
+                                {"k": "cpp_attr", "doc": 1, "default": "late"},
+                                {"k": "cpp_member", "doc": 1, "types": ["int"], "params": ["a"]}, {"k": "close"},
+                                {"k": "cpp_class", "doc": 1}, {"k": "cpp_attr", "doc": 1}],
+    "nothing_to_document": lambda: [{"k": "set", "doc": 0}, {"k": "generic", "doc": 0}, {"k": "if", "doc": 0}],
+    "empty_file": lambda: [],
     "undocumented": lambda: [{"k": "function", "doc": 0, "params": ["a"]}, {"k": "close"}, {"k": "macro", "doc": 0},
                              {"k": "close"}, {"k": "option", "doc": 0}, {"k": "cpp_class", "doc": 0},
                              {"k": "cpp_attr", "doc": 0}, {"k": "cpp_member", "doc": 0, "types": ["int"], "params": ["a"]},
